@@ -7,11 +7,478 @@ private buffering fields are compared.  Direct oracles (the property statement o
 one-shot output, return 0 exactly at flushed frame ends, decode(all emitted) == consumed (through R and libzstd)."""
 import json
 import random
+import struct
 
 from .. import codec, core
 from .. import streamtie as st
 from . import c02_common as cc
 
+RULE = ("decoder: streams = frames emitted by the real compressor (small windows so that the output ring restarts), hand-made "
+        "raw/RLE/empty-block frames with every header form, multi-frame + skippable concatenations, magicless, plus damaged "
+        "streams (content-size lies with and without an empty last block, checksum damage, reserved block type, truncation) "
+        "that R and one-shot decompression reject; each decoded under several call histories: random (chunk sizes from "
+        "{0,1,2,3,hint,hint+-1,all,...} x capacities {0,1,2,3,5,rest,...}) and boundary-aimed (every split point of frame "
+        "header + first block header, capacity = content size -1/0/+1 around the single-pass shortcut, input = frame size "
+        "-1/0, stable-out with exact capacity, maxBlockSize, ignore-checksum); compressor: histories of (slice, capacity, "
+        "directive) over inputs around block/window edges incl. capacities compressBound(blockSize|offered)-1/0/+1, stable-in/"
+        "out, pledged sizes, multi-frame, a single-call compression on the same context first, nbWorkers>=1 (direct oracle "
+        "only); buffer-less compressBegin/Continue/End with contiguous and separated segments, ZBUFF_* round trips, "
+        "buffer-less decoding. A case counts as non-trivial when it has more than one call; its signature is the set of "
+        "(stage, return class, buffer-state predicates) it visited.")
+
+
+# ---------------------------------------------------------------------------------------------
+# corpus (boundary cases, run first)
+
+def corpus_streams():
+    out = []
+
+    def add(frame, content, desc, parts=None, ml=False):
+        out.append(dict(frame=frame, content=content, parts=parts or [(len(frame), len(content))], magicless=ml, desc="corpus-" + desc))
+    # regression (repaired in /repo): single segment, FCS 0 (window = blockSizeMax = 0), one RLE block of regenerated size 0;
+    # the block-header stage of ZSTD_decompressContinue compared the 1-byte RLE payload with blockSizeMax and refused it
+    f0 = st.frame_header(fcs=0, single=True) + st.block(1, b"A", True, rle_len=0)
+    add(f0, b"", "rle0-fcs0")
+    add(st.frame_header(fcs=0, single=True, magicless=True) + st.block(1, b"A", True, rle_len=0), b"", "rle0-fcs0-ml", ml=True)
+    add(st.frame_header(fcs=0, single=True, checksum=True) + st.block(1, b"B", False, rle_len=0) + st.block(0, b"", True)
+        + struct.pack("<I", st.xxh64(b"") & 0xFFFFFFFF), b"", "rle0-fcs0-ck")
+    # neighbours that every path accepts: empty raw last block in a zero-window frame, RLE 0 in a frame with a window
+    add(st.frame_header(fcs=0, single=True) + st.block(0, b"", True), b"", "raw0-fcs0")
+    add(st.frame_header(window_log=10) + st.block(1, b"A", True, rle_len=0), b"", "rle0-win")
+    add(st.frame_header(fcs=1, single=True) + st.block(1, b"A", True, rle_len=1), b"A", "rle1-fcs1")
+    f1 = st.frame_header(fcs=3, single=True) + st.block(0, b"xyz", True)
+    add(f1, b"xyz", "raw3-fcs3")
+    add(f1 + f0 + f1, b"xyzxyz", "raw3+rle0-fcs0+raw3", parts=[(len(f1), 3), (len(f0), 0), (len(f1), 3)])
+    # the historical shapes of the fixed findings
+    add(st.frame_header(fcs=2, single=True, fcs_bytes=8) + st.block(0, b"ab", False) + st.block(0, b"", True), b"ab", "fcs8-empty-last")
+    return out
+
+
+# Note (not a finding, see docs/C02.md): a Compressed block of Block_Size 0 is refused by one-shot decompression, by the
+# single-pass shortcut and by R, but ZSTD_decompressContinue's block-header stage treats every block with cBlockSize == 0 as an
+# empty block.  The stream is invalid, so no property speaks about it; the frames stay here for the lock-step comparison only.
+
+
+def corpus_damaged_streams():
+    """streams that R and one-shot decompression reject (run under the damaged-stream oracle)"""
+    out = []
+
+    def add(frame, desc, why, must_reject=True, ml=False):
+        out.append(dict(frame=frame, content=None, parts=[(len(frame), 0)], magicless=ml, desc="corpus-" + desc, valid=False, why=why,
+                        must_reject=must_reject))
+    cb0 = lambda last: st.block(2, b"", last)     # a compressed block of Block_Size 0: no literals / sequences section at all
+    add(st.frame_header(fcs=0, single=True) + cb0(True), "cblock0-fcs0", "compressed block of size 0 (last)", False)
+    add(st.frame_header(window_log=10) + cb0(True), "cblock0-win", "compressed block of size 0 (last)", False)
+    add(st.frame_header(fcs=3, single=True) + st.block(0, b"ABC", False) + cb0(True), "raw3+cblock0", "compressed block of size 0 (last)", False)
+    add(st.frame_header(fcs=3, single=True) + cb0(False) + st.block(0, b"ABC", False) + st.block(0, b"", True), "cblock0+raw3+empty",
+        "compressed block of size 0 (not last)", False)
+    add(st.frame_header(fcs=3, single=True, magicless=True) + cb0(False) + st.block(0, b"ABC", True), "cblock0+raw3-ml",
+        "compressed block of size 0 (not last)", False, ml=True)
+    # fixed finding f70c502: content-size lie hidden behind an empty last block
+    add(bytes.fromhex("28b52ffde002000000000000000a000034010000"), "f70c502", "declares 2 bytes, regenerates 1, empty last block")
+    return out
+
+
+def corpus_decoder_cases(streams):
+    cases = []
+    for s in streams:
+        n = len(s["frame"])
+        fl = {"ml": True} if s["magicless"] else {}
+        # last entry: hostage byte kept, output flushed by calls without input, ZSTD_NO_FORWARD_PROGRESS_MAX - 1 idle calls, then
+        # the call that releases the hostage (reaches an assert(0) that is a no-op in release builds: the code carries on)
+        for ops in ["a:r", "1:r", "2:1", "h:r", "h+1:r", "%d:r;a:r" % max(n - 1, 1), "a:0;a:r", "3:r;a:1",
+                    "a:1;0:1;0:1;" + "0:r;" * 15 + "a:r"]:
+            cases.append(dict(id="c%d" % len(cases), stream=s, ops=ops, flags=dict(fl), maxcalls=2000))
+    return cases
+
+
+# ---------------------------------------------------------------------------------------------
+# streams the specification rejects
+
+def _mk_frame(blocks, content, declared=None, checksum=False, ck_value=None, single=False, wl=10, fcs_bytes=None, magicless=False):
+    if declared is None:
+        hdr = st.frame_header(window_log=wl, magicless=magicless, checksum=checksum)
+    elif single:
+        hdr = st.frame_header(fcs=declared, single=True, magicless=magicless, checksum=checksum, fcs_bytes=fcs_bytes)
+    else:
+        hdr = st.frame_header(window_log=wl, fcs=declared, fcs_bytes=fcs_bytes or (4 if declared < 256 else None), magicless=magicless, checksum=checksum)
+    tail = b""
+    if checksum:
+        v = (st.xxh64(bytes(content)) & 0xFFFFFFFF) if ck_value is None else ck_value
+        tail = struct.pack("<I", v)
+    return hdr + b"".join(blocks) + tail
+
+
+def damaged_streams(ctx, rng, cd, valid_streams, n):
+    """near-valid streams: -> stream dicts with valid=False, kept only when R and the real one-shot decoder both reject"""
+    cands = []
+    for i in range(n):
+        shape = rng.choice(["fcs-empty-last", "fcs-empty-last", "fcs", "fcs-single", "checksum", "reserved", "trunc", "lib-fcs", "lib-ck"])
+        ml = rng.random() < 0.15
+        nb = rng.randint(1, 4)
+        blocks, content = [], bytearray()
+        for j in range(nb):
+            if rng.random() < 0.6:
+                d = rng.randbytes(rng.choice([1, 2, 3, 30, 300, 1000]))
+                blocks.append((0, d, 0))
+                content += d
+            else:
+                b, k = rng.randrange(256), rng.choice([1, 2, 50, 1000])
+                blocks.append((1, bytes([b]), k))
+                content += bytes([b]) * k
+        empty_last = shape == "fcs-empty-last" or rng.random() < 0.3
+
+        def ser(bl, empty):
+            out = []
+            for j, (t, d, k) in enumerate(bl):
+                last = (j == len(bl) - 1) and not empty
+                out.append(st.block(t, d, last, rle_len=k))
+            if empty:
+                out.append(st.block(0, b"", True))
+            return out
+        ck = rng.random() < 0.4
+        n_c = len(content)
+        frame, why = None, shape
+        if shape in ("fcs-empty-last", "fcs", "fcs-single"):
+            lie = n_c + rng.choice([1, -1, 1, 7, -n_c])
+            if lie < 0 or lie == n_c:
+                lie = n_c + 1
+            single = shape == "fcs-single" and lie >= max((k if t else len(d)) for t, d, k in blocks)
+            frame = _mk_frame(ser(blocks, empty_last), content, declared=lie, checksum=ck, single=single, magicless=ml,
+                              fcs_bytes=rng.choice([None, 8]) if not single else None)
+            why = "declares %d bytes, regenerates %d%s" % (lie, n_c, ", empty last block" if empty_last else "")
+        elif shape == "checksum":
+            good = st.xxh64(bytes(content)) & 0xFFFFFFFF
+            frame = _mk_frame(ser(blocks, empty_last), content, declared=rng.choice([None, n_c]), checksum=True,
+                              ck_value=good ^ (1 << rng.randrange(32)), magicless=ml)
+            why = "checksum damaged"
+        elif shape == "reserved":
+            bl = ser(blocks, empty_last)
+            k = rng.randrange(len(bl))
+            b0 = bl[k]
+            bl[k] = bytes([b0[0] | 6]) + b0[1:]
+            frame = _mk_frame(bl, content, declared=None, checksum=ck, magicless=ml)
+            why = "reserved block type"
+        elif shape == "trunc":
+            f = _mk_frame(ser(blocks, empty_last), content, declared=rng.choice([None, n_c]), checksum=ck, magicless=ml)
+            frame = f[:max(1, len(f) - rng.choice([1, 1, 2, 3, 4, 5]))]
+            why = "truncated"
+        else:
+            pool = [s for s in valid_streams if s["desc"].startswith("lib-") and len(s["parts"]) == 1 and 8 < len(s["frame"]) < 8000]
+            if not pool:
+                continue
+            s = rng.choice(pool)
+            f = bytearray(s["frame"])
+            ml = s["magicless"]
+            p = 0 if ml else 4
+            fhd = f[p]
+            if shape == "lib-ck":
+                if not (fhd & 4):
+                    continue
+                f[-1 - rng.randrange(4)] ^= 1 << rng.randrange(8)
+                why = "checksum damaged (compressor frame)"
+            else:
+                hl = cc.header_len(bytes(f), ml)
+                nb_f = [1 if (fhd >> 5) & 1 else 0, 2, 4, 8][fhd >> 6]
+                if nb_f == 0 or len(s["content"]) < 2:
+                    continue
+                pos = hl - nb_f
+                v = int.from_bytes(f[pos:pos + nb_f], "little")
+                v2 = v + rng.choice([1, -1])
+                if v2 < 0 or v2 >= 1 << (8 * nb_f):
+                    continue
+                f[pos:pos + nb_f] = v2.to_bytes(nb_f, "little")
+                why = "content-size field changed by one (compressor frame)"
+            frame = bytes(f)
+        cands.append(dict(frame=frame, content=None, parts=[(len(frame), 0)], magicless=ml, desc="damaged-%s" % shape, valid=False, why=why,
+                          must_reject=(shape != "reserved")))
+    if not cands:
+        return []
+    # keep the ones that the specification (R) and the real one-shot decoder both reject
+    mres = cd.model([("g%d" % i, ",".join((["magicless"] if s["magicless"] else []) + ["nostrict"]), None, s["frame"]) for i, s in enumerate(cands)])
+    dout, derrs = cd.impl(["D g%d oneshot %s - %s %d" % (i, codec.dparams_str({"format": 1}) if s["magicless"] else "-", codec.hx(s["frame"]), 1 << 20)
+                           for i, s in enumerate(cands)])
+    keep = []
+    for i, s in enumerate(cands):
+        m = mres.get("g%d" % i, ("ERR", "missing", -1))
+        d = codec.parse_ok(dout.get("g%d" % i, "ERR missing"))
+        if m[0] == "ERR" and d[0] != "OK":
+            keep.append(s)
+    return keep
+
+
+# ---------------------------------------------------------------------------------------------
+# boundary-aimed decoding histories
+
+def boundary_decoder_cases(ctx, rng, streams, n_streams, first_id=0):
+    cases = []
+
+    def add(s, ops, fl=None, maxcalls=60000):
+        fl = dict(fl or {})
+        if s["magicless"]:
+            fl["ml"] = True
+        cases.append(dict(id="b%d" % (first_id + len(cases)), stream=s, ops=ops, flags=fl, maxcalls=maxcalls))
+    pool = [s for s in streams if 0 < len(s["frame"]) < 30000]
+    rng.shuffle(pool)
+    for s in pool[:n_streams]:
+        n, c = len(s["frame"]), len(s["content"] or b"")
+        hl = cc.header_len(s["frame"], s["magicless"])
+        valid = s.get("valid", True)
+        # every split point of the frame header and of the first block header (two styles of continuation)
+        ks = list(range(1, min(n, hl + 4)))
+        if len(ks) > 6:
+            ks = rng.sample(ks, 6)
+        for k in ks:
+            add(s, "%d:r;%s" % (k, rng.choice(["a:r", "h:r", "1:r", "a:%d" % max(c, 1), "h+1:r"])))
+        if not valid:
+            add(s, rng.choice(["a:r", "h:r", "1:r", "a:3"]))
+            continue
+        # single-pass shortcut threshold: capacity around the content size, input around the frame size
+        first_c = s["parts"][0][1] if s["parts"] else c
+        first_n = s["parts"][0][0] if s["parts"] else n
+        for cap in {max(first_c - 1, 0), first_c, first_c + 1}:
+            add(s, "a:%d;a:r" % cap)
+        add(s, "%d:r;a:r" % max(first_n - 1, 1))
+        add(s, "%d:%d;a:r" % (first_n, first_c))
+        if first_n < n:
+            add(s, "%d:r;a:r" % (first_n + rng.choice([1, 2, 4, 5])))
+        # stable output buffer with exact / one byte short capacity
+        if c < 100000:
+            add(s, rng.choice(["a:r", "h:r", "1:r", "h-1:r;2:r"]), dict(so=c))
+            if c > 0 and rng.random() < 0.3:
+                add(s, "a:r", dict(so=c - 1))
+                cases[-1]["legit_error"] = "dstSize_tooSmall"
+        # output ring: capacities around the block size, byte-wise output
+        bm = st.frame_block_max(s["frame"], s["magicless"]) if (len(s["parts"]) == 1 and s["parts"][0][1] > 0) else 0
+        if bm and c > bm:
+            for cap in rng.sample([bm - 1, bm, bm + 1, 2 * bm - 1, 2 * bm + 1, 1, 7], 3):
+                add(s, "%s:%d" % (rng.choice(["h", "a", "h+1", "100"]), cap), maxcalls=4000)
+            if rng.random() < 0.5:
+                add(s, "h:r", dict(bm=max(1024, bm)))
+    return cases
+
+
+# ---------------------------------------------------------------------------------------------
+# compressor: boundary-aimed histories (direct-to-dst threshold, end shortcut, input-buffer wrap)
+
+def boundary_compressor_cases(ctx, rng, n, first_id=0):
+    cases = []
+    for i in range(n):
+        wl = rng.choice([10, 10, 11, 12])
+        p = {"level": rng.choice(cc.FAST_LEVELS), "windowLog": wl}
+        if rng.random() < 0.3:
+            p["checksum"] = 1
+        if rng.random() < 0.3:
+            p["maxBlockSize"] = rng.choice([1024, 1025, 2000])
+        bs = min(1 << wl, p.get("maxBlockSize", 1 << 17))
+        size = rng.choice([bs - 1, bs, bs + 1, 2 * bs - 1, 2 * bs, 2 * bs + 1, 3 * bs, 5 * bs + 3, (1 << wl) + bs, (1 << wl) + bs + 1, 9 * bs])
+        x = codec.gen_input(rng, rng.choice(codec.KINDS), size)
+        r = rng.random()
+        if r < 0.15:
+            p["stableIn"] = 1
+        elif r < 0.3:
+            p["stableOut"] = 1
+        style = rng.choice(["direct", "endshort", "wrap", "flushwrap"])
+        ops = []
+        if style == "direct":       # capacity around compressBound(blockSize): direct-to-dst or through outBuff
+            for _ in range(rng.randint(2, 8)):
+                ops.append("%s:%s:%d" % (rng.choice(["b", "b", "b+1", "b-1", "h", "a"]), rng.choice(["c", "c-1", "c+1", "c", "5", "r"]), rng.choice([0, 0, 1, 2])))
+        elif style == "endshort":   # ZSTD_e_end with capacity around compressBound(remaining input), with and without buffered input
+            for _ in range(rng.randint(0, 2)):
+                ops.append("%s:r:%d" % (rng.choice(["0", "1", "b", "b-1", "100"]), rng.choice([0, 0, 1])))
+            ops.append("a:%s:2" % rng.choice(["C", "C-1", "C+1", "C", "C-1"]))
+            ops.append("a:%s:2" % rng.choice(["C", "r", "3"]))
+        elif style == "wrap":       # fill the input buffer to its end: inBuffTarget > inBuffSize restarts at 0
+            for _ in range(rng.randint(3, 12)):
+                ops.append("%s:%s:0" % (rng.choice(["b", "b", "h", "h", "b-1", "b+1", "1"]), rng.choice(["r", "r", "c", "7"])))
+        else:
+            for _ in range(rng.randint(3, 12)):
+                ops.append("%s:%s:%d" % (rng.choice(["b-1", "h-1", "h", "1", "3", "b+1"]), rng.choice(["r", "1", "c-1", "0"]), rng.choice([0, 1, 1])))
+        pledged = size if rng.random() < 0.1 else None
+        cases.append(dict(id="e%d" % (first_id + i), x=x, params=p, ops=";".join(ops), pledged=pledged, kind="edge-" + style, mt=False, pre=None))
+    return cases
+
+
+def pre_oneshot_cases(ctx, rng, n, first_id=0):
+    """the same context served a single-call compression (other size) before the streamed frame"""
+    cases = []
+    for i in range(n):
+        size = rng.choice([100, 300, 1000, 5000])
+        x = codec.gen_input(rng, rng.choice(codec.KINDS), size)
+        p = cc.stream_cparams(rng)
+        p.pop("format", None)
+        pre = rng.choice([size, size // 3, size - 1, 1])
+        ops = rng.choice(["a:r:2", "100:r:0;a:r:2", "h:r:0", "a:5:2", "1:r:1;a:r:2"])
+        cases.append(dict(id="p%d" % (first_id + i), x=x[:rng.choice([size, size // 3, 100])] if rng.random() < 0.7 else x, params=p, ops=ops,
+                          pledged=None, kind="pre-oneshot", mt=False, pre=pre))
+        cases[-1]["pre"] = min(pre, len(cases[-1]["x"])) if rng.random() < 0.5 else pre
+    return cases
+
+
+# ---------------------------------------------------------------------------------------------
+# buffer-less and legacy entry points (differential runs; the state machines behind them are not modelled here
+# except ZSTD_decompressContinue)
+
+def run_bufferless_and_legacy(ctx, rng, tie, cd, streams, n):
+    lines, meta = [], {}
+    for i in range(n):
+        size = rng.choice([0, 1, 100, 1000, 3000, 5000, 9000, 20000])
+        x = codec.gen_input(rng, rng.choice(codec.KINDS), size)
+        p = {"level": rng.choice(cc.FAST_LEVELS), "windowLog": rng.choice([10, 11, 12, 17])}
+        if rng.random() < 0.4:
+            p["checksum"] = 1
+        segs, left = [], size
+        while left > 0 and len(segs) < 40:
+            k = min(left, rng.choice([1, 2, 3, 100, 1000, 1023, 1024, 1025, 4096, 5000]))
+            segs.append(("!" if rng.random() < 0.4 else "") + str(k))
+            left -= k
+        kid = "K%d" % i
+        lines.append("K %s %s %s %s" % (kid, codec.params_str(p), codec.hx(x), ",".join(segs) or "0"))
+        meta[kid] = dict(kind="bufferless-compress", x=x, params=p, segments=segs)
+        if i < n // 2:
+            lid = "L%d" % i
+            ic, oc = rng.choice([1, 2, 3, 100, 1000, 131072]), rng.choice([1, 2, 3, 5, 100, 1000, 131072])
+            lines.append("L %s %d %s %d %d" % (lid, rng.choice([1, 3, 5]), codec.hx(x), ic, oc))
+            meta[lid] = dict(kind="zbuff-roundtrip", x=x, inchunk=ic, outchunk=oc)
+    out, errs = tie.impl(lines)
+    if errs:
+        ctx.violation(dict(kind="harness-crash", detail=errs[:2]), what="c02_stream crashed in a buffer-less / ZBUFF run: %r" % (errs[0],))
+    rcases, dlines = [], []
+    for cid, m in meta.items():
+        r = out.get(cid)
+        rep = dict(kind=m["kind"], input_hex=m["x"].hex()[:100000], **{k: v for k, v in m.items() if k not in ("x", "kind")})
+        if r is None or not r.startswith("OK "):
+            ctx.violation(dict(rep, result=str(r)[:200]), what="%s failed on a legal call sequence: %s" % (m["kind"], str(r)[:120]))
+            continue
+        t = r.split(" ")
+        m["frame"] = codec.unhx(t[1])
+        if m["kind"] == "zbuff-roundtrip":
+            if codec.unhx(t[2]) != m["x"]:
+                ctx.violation(dict(rep, frame_hex=m["frame"].hex()[:100000]), what="ZBUFF_* streaming round trip does not regenerate the input (in chunk %d, out chunk %d)" % (m["inchunk"], m["outchunk"]))
+                continue
+        rcases.append((cid, "nostrict", None, m["frame"]))
+        dlines.append("D %s stream:%d:%d - - %s %d" % (cid, 1 + len(m["frame"]) // 3, 1 + len(m["x"]) // 4, codec.hx(m["frame"]), len(m["x"]) + 16))
+    mres = cd.model(rcases) if rcases else {}
+    dout, derrs = cd.impl(dlines)
+    for cid, m in meta.items():
+        if "frame" not in m:
+            continue
+        rep = dict(kind=m["kind"], input_hex=m["x"].hex()[:100000], frame_hex=m["frame"].hex()[:100000],
+                   **{k: v for k, v in m.items() if k not in ("x", "kind", "frame")})
+        mr = mres.get(cid, ("ERR", "missing", -1))
+        d = codec.parse_ok(dout.get(cid, "ERR missing"))
+        if mr[0] != "OK" or mr[1] != m["x"]:
+            ctx.violation(rep, what="%s: the reference decoder R does not regenerate the input from the emitted frame (%s)" % (m["kind"], "ERR %s" % (mr[1],) if mr[0] != "OK" else "content differs"))
+        elif d[0] != "OK" or d[1] != m["x"]:
+            ctx.violation(rep, what="%s: libzstd does not regenerate the input from the emitted frame (%s)" % (m["kind"], d[1] if d[0] != "OK" else "content differs"))
+        ctx.count(("BL", m["kind"], len(m.get("segments", [])) > 1, any(s.startswith("!") for s in m.get("segments", [])), len(m["x"]) > 4096), nontrivial=len(m["x"]) > 0)
+    # buffer-less decoding: real ZSTD_decompressContinue fed ZSTD_nextSrcSizeToDecompress and the model's protocol run
+    vs = [s for s in streams if s.get("valid", True) and not s["magicless"] and len(s["frame"]) < 20000][:n]
+    dl = ["D B%d continue - - %s %d" % (i, codec.hx(s["frame"]), len(s["content"]) + 16) for i, s in enumerate(vs)]
+    bl = ["B B%d - %s" % (i, codec.hx(s["frame"])) for i, s in enumerate(vs)]
+    bo, berrs = cd.impl(dl)
+    mo, merrs = tie.model(bl)
+    if berrs or merrs:
+        ctx.violation(dict(kind="harness-crash", detail=(berrs + merrs)[:2]), what="harness / model crashed in a buffer-less decoding run", no_input=True)
+    for i, s in enumerate(vs):
+        rep = dict(kind="bufferless-decode", frame_hex=s["frame"].hex(), desc=s["desc"])
+        d = codec.parse_ok(bo.get("B%d" % i, "ERR missing"))
+        if d[0] != "OK" or d[1] != s["content"]:
+            ctx.violation(rep, what="buffer-less decoding (decompressBegin/Continue fed nextSrcSizeToDecompress) of a valid stream %s: %s"
+                                    % (s["desc"], d[1] if d[0] != "OK" else "output differs from the one-shot output"))
+        m = mo.get("B%d" % i, "ERR missing")
+        if not m.startswith("OK ") or codec.unhx(m.split(" ")[1]) != s["content"]:
+            ctx.violation(dict(rep, model=m[:200]), what="the buffer-less protocol of DStreamModel does not regenerate the content of a valid stream (%s): %s" % (s["desc"], m[:80]),
+                          no_input=(d[0] == "OK" and d[1] == s["content"]))
+        ctx.count(("BD", len(s["parts"]) > 1, s["desc"].split("-")[0]), nontrivial=len(s["frame"]) > 0)
+
+
+def search_after_broken_proof(ctx, tie, cd):
+    """a proof obligation no longer checks: run the direct oracles on a widened case set and report what they find"""
+    def search(broken):
+        rng = random.Random(ctx.seed + 7919)
+        streams = cc.build_streams(ctx, rng, cd, 40, 40, 20)
+        cases = cc.decoder_cases(ctx, rng, streams, 4)
+        cc.run_decoder_lockstep(ctx, tie, cases)
+        kc = cc.compressor_cases(ctx, rng, 120)
+        cc.run_compressor_lockstep(ctx, tie, cd, kc)
+        return []   # concrete inputs were already reported through ctx.violation by the lock-step runs
+    return search
+
 
 def run(ctx):
-    cc.run_property(ctx, "C02")
+    ctx.cov["rule"] = RULE
+    if ctx.replay_file:
+        return replay(ctx)
+    ctx.prove()
+    cd = codec.Codec(ctx)
+    tie = st.Tie(ctx)
+    ctx.proof_verdict(search_after_broken_proof(ctx, tie, cd))
+    rng = random.Random(ctx.seed)
+    k = 1 if ctx.quick else 6
+    # ---- decoder
+    streams = cc.build_streams(ctx, rng, cd, 60 * k, 40 * k, 25 * k)
+    bad = damaged_streams(ctx, rng, cd, streams, 60 * k)
+    corpus = corpus_streams()
+    cases = corpus_decoder_cases(corpus + corpus_damaged_streams())
+    cases += cc.decoder_cases(ctx, rng, streams, 3 if ctx.quick else 4)
+    cases += boundary_decoder_cases(ctx, rng, streams, 45 * k)
+    cases += boundary_decoder_cases(ctx, rng, bad, len(bad), first_id=100000)
+    hist, nv = cc.run_decoder_lockstep(ctx, tie, cases)
+    ctx.notes["decoder_stage_histogram"] = hist
+    ctx.notes["decoder_streams"] = dict(valid=len(streams), damaged=len(bad), histories=len(cases))
+    core.log("decoder histories: %d (%d streams, %d damaged), violations %d" % (len(cases), len(streams), len(bad), nv))
+    # ---- compressor
+    kc = cc.compressor_cases(ctx, rng, 150 * k)
+    kc += boundary_compressor_cases(ctx, rng, 90 * k)
+    kc += pre_oneshot_cases(ctx, rng, 12 * k)
+    mt = cc.compressor_cases(ctx, rng, 24 * k, mt=True, big=1)
+    for c in mt:
+        c["id"] = "m" + c["id"]
+    khist = cc.run_compressor_lockstep(ctx, tie, cd, kc + mt)
+    ctx.notes["compressor_histogram"] = khist
+    ctx.notes["compressor_cases"] = dict(single_thread=len(kc), multi_thread=len(mt))
+    core.log("compressor histories: %d (+%d multithreaded)" % (len(kc), len(mt)))
+    # ---- other entry points
+    run_bufferless_and_legacy(ctx, rng, tie, cd, streams, 24 * k)
+    if not ctx.quick:
+        # supporting test: the same harness under ASan+UBSan on a sample of the histories
+        atie = st.Tie(ctx, variant="asan")
+        atie._m = tie.m
+        sub = rng.sample(cases, min(len(cases), 600))
+        for i, c in enumerate(sub):
+            c = dict(c)
+            c["id"] = "a%d" % i
+            sub[i] = c
+        cc.run_decoder_lockstep(ctx, atie, sub, private=False)
+        ksub = [dict(c, id="a" + c["id"]) for c in rng.sample(kc + mt, min(len(kc) + len(mt), 300))]
+        cc.run_compressor_lockstep(ctx, atie, cd, ksub, private=False, flush_oracle=False)
+
+
+def replay(ctx):
+    """re-execute a recorded failing case (best effort): decoder histories and compressor histories"""
+    obj = json.load(open(ctx.replay_file))
+    rep = obj.get("replay", {})
+    cd = codec.Codec(ctx)
+    tie = st.Tie(ctx)
+    kind = rep.get("kind")
+    if kind == "decoder-history":
+        frame = bytes.fromhex(rep["frame_hex"])
+        flags = rep.get("flags") or {}
+        ml = bool(flags.get("ml"))
+        m = cd.model([("r", ",".join((["magicless"] if ml else []) + ["nostrict"]), None, frame)])["r"]
+        content = m[1] if m[0] == "OK" else b""
+        parts = rep.get("parts") or [(len(frame), len(content))]
+        s = dict(frame=frame, content=content, parts=[tuple(p) for p in parts], magicless=ml, desc=rep.get("desc", "replay"),
+                 valid=rep.get("valid", m[0] == "OK"), why=rep.get("why"))
+        case = dict(id="d0", stream=s, ops=rep["ops"], flags=flags, maxcalls=60000)
+        cc.run_decoder_lockstep(ctx, tie, [case])
+    elif kind == "compress-history":
+        x = bytes.fromhex(rep["input_hex"])
+        case = dict(id="k0", x=x, params=dict(rep["params"]), ops=rep["ops"], pledged=rep.get("pledged"),
+                    kind="replay", mt=bool(rep["params"].get("nbWorkers")), pre=rep.get("pre"))
+        cc.run_compressor_lockstep(ctx, tie, cd, [case])
+    else:
+        core.log("replay: nothing to re-execute for kind %r (%s)" % (kind, obj.get("what", "")[:200]))
+        ctx.prove()
+        ctx.proof_verdict(None)
